@@ -147,11 +147,11 @@ func c19R1(c *engine.Ctx) {
 		}
 		// operand is len(param.Data)? then every caller must bound it
 		call := engine.CallOf(cv.X)
-		if call == nil || engine.CalleeID(call.Common()) != "builtin.len" || !strings.HasPrefix(engine.Describe(call.Common().Args[0]), "p:"+fn.Params[1].Name()+".") {
+		if call == nil || engine.CalleeID(call.Common()) != "builtin.len" || !strings.HasPrefix(engine.Describe(call.Common().Args[0]), "p:"+engine.ParamName(fn.Params[1])+".") {
 			c.Fail("C19.R1", key, cv.Pos(), "narrowing %s → %s of %s ∈ %s may truncate", cv.X.Type(), cv.Type(), engine.Describe(cv.X), in)
 			return
 		}
-		field := strings.TrimPrefix(engine.Describe(call.Common().Args[0]), "p:"+fn.Params[1].Name()+".")
+		field := strings.TrimPrefix(engine.Describe(call.Common().Args[0]), "p:"+engine.ParamName(fn.Params[1])+".")
 		sites := 0
 		for _, sp := range c.SSA {
 			for _, f := range allFunctions(c, sp) {
@@ -220,7 +220,7 @@ func c19R2(c *engine.Ctx) {
 			}
 		}
 		okMac := mac != nil && strings.Contains(engine.Describe(mac.Common().Args[0]), "crypto/sha256.New") &&
-			engine.Describe(mac.Common().Args[1]) == "p:"+fn.Params[2].Name()
+			engine.Describe(mac.Common().Args[1]) == "p:"+engine.ParamName(fn.Params[2])
 		c.Check(okMac, "C19.R2", "readServerHello/mac-key", r.Pos(), "compared digest must be HMAC-SHA256 keyed with the secret parameter")
 		if mac == nil {
 			continue
@@ -233,7 +233,7 @@ func c19R2(c *engine.Ctx) {
 			}
 		}
 		okWrites := len(writes) == 2 && engine.Dominates(writes[0], writes[1]) && engine.Dominates(writes[1], eq) &&
-			strings.HasPrefix(engine.Describe(writes[0].Common().Args[0]), "p:"+fn.Params[1].Name()) &&
+			strings.HasPrefix(engine.Describe(writes[0].Common().Args[0]), "p:"+engine.ParamName(fn.Params[1])) &&
 			strings.Contains(engine.Describe(writes[1].Common().Args[0]), "(*bytes.Buffer).Bytes")
 		c.Check(okWrites, "C19.R2", "readServerHello/mac-input", r.Pos(), "MAC input must be clientRandom followed by the received packet, both before the comparison")
 		// the digest bytes inside the packet are zeroed before hashing: a copy into packet[a:b] from a zero array dominates the packet write
